@@ -201,6 +201,7 @@ class MdSim(object):
 
     # ---------------------------------------------------------------- load
     def op_load(self, ev, i, rec):
+        self.consist = {}
         now = self.now()
         doc = ev["doc"]
         sign_key = ev.get("sign")
@@ -412,6 +413,7 @@ class MdSim(object):
         return key if isinstance(key, (str, int)) else id(key)
 
     def op_jump(self, ev, i, rec):
+        self.consist = {}
         self.world.clock.jump(None, ev["delta"])
         self.count("fault.clock-jump")
 
@@ -489,16 +491,19 @@ class MdSim(object):
                 self.count("oracle.unknown-entity")
             return
         cands = []
+        aligned = []
         has_role = False
         for e in hs:
             rd = e["roles"].get(role)
             if rd is None:
+                aligned.append(None)
                 continue
             has_role = True
             rd_b = (e.get("roles_b") or {}).get(role) or {}
             eps = [(B[x[0]], x[1], (str(x[2]) if svc == "assertion_consumer_service" else None))
                    for x in list(rd.get(svc, [])) + list(rd_b.get(svc, [])) if B[x[0]] == binding]
             cands.append(eps)
+            aligned.append(eps)
         if not has_role:
             if out[0] == "ok" and out[1]:
                 self.viol(i, "service-for-missing-role", "entity=%s role=%s got=%r" % (ev["entity"], role, out[1]))
@@ -524,6 +529,25 @@ class MdSim(object):
         if got not in nonempty:
             self.viol(i, "endpoints-differ-from-declared", "entity=%s %s/%s/%s got=%r declared(one of)=%r" % (
                 ev["entity"], role, svc, ev["binding"], got, nonempty))
+        elif aligned and aligned[0]:
+            # (the first source that holds the entity declares this service: the answer is its own)
+            self.note_consistency(ev["entity"], hs, set(j for j, c in enumerate(aligned) if c == got), i, "endpoints")
+
+    def note_consistency(self, eid, hs, idxs, i, what):
+        """An entity declared by several loaded documents: whichever document answers, the answers about one entity
+        come from one document - endpoints of one paired with keys of another is something no document declares."""
+        if len(hs) < 2 or not idxs:
+            return
+        if not hasattr(self, "consist"):
+            self.consist = {}
+        prev = self.consist.get(eid)
+        cur = idxs if prev is None else (prev[0] & idxs)
+        if not cur:
+            self.viol(i, "answers-mix-several-documents", "entity=%s: %s answered from document(s) %s of its %d holders, %s from %s" % (
+                eid, what, sorted(idxs), len(hs), prev[1], sorted(prev[0])))
+            return
+        self.consist[eid] = (cur, what if prev is None else prev[1] + "+" + what)
+        self.count("oracle.answers-consistent-across-documents")
 
     def judge_certs(self, ev, i, hs, out):
         if not hs:
@@ -556,6 +580,9 @@ class MdSim(object):
             return
         self.count("oracle.certs.exact")
         # the same certificate declared under two roles may be listed twice: compare as sets
+        if any(c is not None and set(c) == set(out[1]) for c in cands):
+            self.note_consistency(ev["entity"], hs, set(j for j, c in enumerate(cands) if c is not None and set(c) == set(out[1])),
+                                  i, "certificates")
         if not any(c is not None and set(c) == set(out[1]) for c in cands):
             def lab(cs):
                 return [next(("k%d" % j for j in range(12) if cert_b64(j) == c), "?") for c in cs]
